@@ -96,6 +96,7 @@ def tv(term, **kw) -> AV:
 
 
 class TermRule(BaseRule):
+    unroll_const_loops = True  # `for x in ("a", "b")` is executed element by element
     """Mixin: builds terms for pure operations.  Subclasses override `call_hook` / `subscript_hook` first."""
 
     wants_compose = True
